@@ -279,8 +279,30 @@ impl DIDUrl {
 
   /// Parse a [`DIDUrl`] from a string.
   pub fn parse(input: impl AsRef<str>) -> Result<Self, Error> {
-    let did_url: BaseDIDUrl = crate::did::parse_base_did_url(input.as_ref())?;
-    Self::from_base_did_url(did_url)
+    // Split off the relative part here: `did_url_parser` mis-reads a delimiter that directly follows a
+    // percent-encoded triplet, and the setters below validate every component anyway.
+    let input: &str = input.as_ref();
+    let did_end: usize = input.find(['/', '?', '#']).unwrap_or(input.len());
+    let did: CoreDID = CoreDID::parse(&input[..did_end])?;
+
+    let relative: &str = &input[did_end..];
+    let (relative, fragment) = match relative.find('#') {
+      Some(index) => (&relative[..index], Some(&relative[index..])),
+      None => (relative, None),
+    };
+    let (path, query) = match relative.find('?') {
+      Some(index) => (&relative[..index], Some(&relative[index..])),
+      None => (relative, None),
+    };
+
+    // The delimiters are passed along: a bare "?" or "#" is rejected by the setters, and a query that itself
+    // begins with '?' keeps it.
+    let mut url: RelativeDIDUrl = RelativeDIDUrl::new();
+    url.set_path(Some(path))?;
+    url.set_query(query)?;
+    url.set_fragment(fragment)?;
+
+    Ok(Self { did, url })
   }
 
   fn from_base_did_url(did_url: BaseDIDUrl) -> Result<Self, Error> {
